@@ -2,7 +2,7 @@
 //
 // One case per input line:   <A> <N> <off> <K> <op> <op> ...
 //   A   = alignof(T) = sizeof(T) in {8,16,32,64};  N = inline capacity in {1,2,4,8};  K = number of vector slots (<= 4)
-//   off = what the replaced ::operator new returns while the vector code runs:
+//   off = what the intercepted ::operator new / ::malloc returns while the vector code runs:
 //           -1    : whatever malloc returns (the platform's real operator new behaviour)
 //           0..48 : an address == off (mod 64)  (multiple of 16: everything ::operator new guarantees,
 //                   __STDCPP_DEFAULT_NEW_ALIGNMENT__ == 16)
@@ -10,7 +10,7 @@
 //     C,k  Cn,k,n  Cv,k,n,x  Ci,k,m,x1..xm (m<=6)  Cc,k,j  Cm,k,j  D,k  Ac,k,j  Am,k,j
 //     P,mode,k,x (mode 0 emplace_back(x), 1 push_back(const T&), 2 push_back(T&&))   o,k (pop_back)
 //     r,k,n (resize)  R,k,n,x (resize(n, T(x)))  v,k,n (reserve)  x,k (clear)  E,k,i (erase(begin()+i))
-//     s,k,i (push_back(v[i]))
+//     s,k,i (push_back(v[i]))  S,k,n,i (resize(n, v[i]))
 // Output, one line per case (numbers only, '|' separates records, ';' separates slot observations):
 //   sv <objmod> <inl_off> <sizeofT> | <step> | <step> ... | F <all slots> | Z <final header> | B <bytes:resid> ...
 //   step/final header: readdead readmoved dblctor dtordead assigndead misaligned dblfree refmismatch nctor ndtor nalloc nfree
@@ -32,26 +32,63 @@
 #include <utility>
 #include <vector>
 
+#include <algorithm>
+#include <atomic>
+#include <memory>
+#include <thread>
+#include <type_traits>
+
 #include "life_sv.h"
 
-#define private public
-#define protected public
-#include <dispenso/small_vector.h>
-#undef private
-#undef protected
-
-// ---------------------------------------------------------------- replaced global allocation functions
+// ---------------------------------------------------------------- replaced allocation functions
+// SmallVector's allocate()/deallocate() use ::operator new/delete, or (alignof(T) > alignof(max_align_t), after the fix)
+// detail::alignedMalloc/alignedFree = ::malloc/::free + alignment arithmetic.  Both are intercepted: operator new/delete
+// by replacement, ::malloc/::free inside the dispenso headers by the macros below.
 struct BlockRec {
-  void* p;
-  void* raw;
+  void* p;     // address the vector code uses as storage
+  void* key;   // what it passes back to operator delete / free
+  void* real;  // what the real malloc returned
   size_t bytes;
   int live;
 };
 static bool g_track = false;
 static int g_off = -1;
+static size_t g_A = 8;  // alignof(T) of the running case
 static BlockRec g_blocks[1 << 14];
 static int g_nblocks = 0;
 static long g_nalloc = 0, g_nfree = 0, g_dblfree = 0;
+
+// raw block for a tracked request: native malloc, or an address == g_off (mod 64)
+static void rawBlock(size_t n, void*& real, void*& p) {
+  if (g_off < 0) {
+    real = p = std::malloc(n ? n : 1);
+  } else {
+    real = std::malloc(n + 192);
+    uintptr_t a = (reinterpret_cast<uintptr_t>(real) + 63) & ~uintptr_t(63);
+    p = reinterpret_cast<void*>(a + static_cast<uintptr_t>(g_off));
+  }
+  if (!real || g_nblocks >= (1 << 14)) std::abort();
+}
+static bool releaseTracked(void* key) {  // true when handled
+  int dead = -1;
+  for (int i = g_nblocks - 1; i >= 0; --i) {
+    if (g_blocks[i].key == key) {
+      if (g_blocks[i].live) {
+        g_blocks[i].live = 0;
+        ++g_nfree;
+        std::free(g_blocks[i].real);
+        return true;
+      }
+      dead = i;
+    }
+  }
+  if (g_track) {  // the vector code releases a block twice, or one it never allocated
+    ++g_dblfree;
+    if (dead >= 0) ++g_nfree;
+    return true;
+  }
+  return false;
+}
 
 void* operator new(size_t n) {
   if (!g_track) {
@@ -59,47 +96,44 @@ void* operator new(size_t n) {
     if (!p) std::abort();
     return p;
   }
-  void *raw, *p;
-  if (g_off < 0) {
-    raw = p = std::malloc(n ? n : 1);
-  } else {
-    raw = std::malloc(n + 192);
-    uintptr_t a = (reinterpret_cast<uintptr_t>(raw) + 63) & ~uintptr_t(63);
-    p = reinterpret_cast<void*>(a + static_cast<uintptr_t>(g_off));
-  }
-  if (!raw || g_nblocks >= (1 << 14)) std::abort();
-  g_blocks[g_nblocks++] = BlockRec{p, raw, n, 1};
+  void *real, *p;
+  rawBlock(n, real, p);
+  g_blocks[g_nblocks++] = BlockRec{p, p, real, n, 1};
   ++g_nalloc;
   return p;
 }
 void operator delete(void* p) noexcept {
   if (!p) return;
-  int dead = -1;
-  for (int i = g_nblocks - 1; i >= 0; --i) {
-    if (g_blocks[i].p == p) {
-      if (g_blocks[i].live) {
-        g_blocks[i].live = 0;
-        ++g_nfree;
-        std::free(g_blocks[i].raw);
-        return;
-      }
-      dead = i;
-    }
-  }
-  if (g_track && dead >= 0) {  // the vector code deletes a block it already deleted
-    ++g_dblfree;
-    ++g_nfree;
-    return;
-  }
-  if (g_track) {  // the vector code deletes something it never allocated
-    ++g_dblfree;
-    return;
-  }
-  std::free(p);
+  if (!releaseTracked(p)) std::free(p);
 }
 void operator delete(void* p, size_t) noexcept {
   ::operator delete(p);
 }
+// ::malloc / ::free as seen by detail::alignedMalloc / alignedFree
+static void* hv_malloc(size_t n) {
+  if (!g_track) return std::malloc(n);
+  void *real, *key;
+  rawBlock(n, real, key);
+  // alignedMalloc(bytes, A) asks for bytes + A and hands out (key + A) & ~(A - 1)
+  uintptr_t user = (reinterpret_cast<uintptr_t>(key) + g_A) & ~uintptr_t(g_A - 1);
+  g_blocks[g_nblocks++] = BlockRec{reinterpret_cast<void*>(user), key, real, n - g_A, 1};
+  ++g_nalloc;
+  return key;
+}
+static void hv_free(void* q) {
+  if (!q) return;
+  if (!releaseTracked(q)) std::free(q);
+}
+
+#define malloc hv_malloc
+#define free hv_free
+#define private public
+#define protected public
+#include <dispenso/small_vector.h>
+#undef private
+#undef protected
+#undef malloc
+#undef free
 
 struct Track {
   Track() {
@@ -283,6 +317,12 @@ struct Runner {
       if (i >= ref[k].size()) return false;
       { Track t; sv(k).push_back(sv(k)[i]); }
       ref[k].push_back(ref[k][i]);  // std::vector guarantees this works
+    } else if (n == "S") {
+      size_t i = static_cast<size_t>(a[2]);
+      if (i >= ref[k].size()) return false;
+      { Track t; sv(k).resize(static_cast<size_t>(a[1]), sv(k)[i]); }
+      int64_t x = ref[k][i];
+      ref[k].resize(static_cast<size_t>(a[1]), x);  // std::vector guarantees this works
     } else {
       return false;
     }
@@ -392,11 +432,12 @@ int main() {
     }
     // reset the per-case state
     for (int i = 0; i < g_nblocks; ++i)
-      if (g_blocks[i].live) std::free(g_blocks[i].raw);
+      if (g_blocks[i].live) std::free(g_blocks[i].real);
     g_nblocks = 0;
     g_nalloc = g_nfree = g_dblfree = 0;
     lsv::resetRegistry();
     g_off = static_cast<int>(off);
+    g_A = static_cast<size_t>(A);
     if (K < 1 || K > 4) {
       std::printf("BADK\n");
       continue;
